@@ -46,6 +46,7 @@ THEOREMS = [P + n for n in [
     "raw_roundtrip",
     "byte_roundtrip_partial",
     "byte_backslash_counterexample",
+    "general_extract_specialises",
     "generated_dispatch",
     "generated_wf_byte_raw",
     "generated_wf",
@@ -815,6 +816,10 @@ def validate_char_assumptions(chk: Check) -> None:
             for st in (rec["strStart"], rec["idStart"], rec["natStart"], rec["byteStart"]):
                 if st and st[0].isspace():
                     bad.append((label, "blank start", st))
+    mism = sum(1 for cp in range(0x110000) if not 0xD800 <= cp <= 0xDFFF and chr(cp).isspace() != (not chr(cp).strip()))
+    chk.cov["isspace_vs_strip_mismatches"] = mism
+    if mism:
+        raise HarnessError("str.isspace and strip() emptiness disagree on this CPython")
     if "/".isalnum() or "*".isalnum():
         bad.append(("comment", "", "/*"))
     chk.cov["alnum_skip_assumption"] = {"checked": True, "violations": bad}
@@ -1296,16 +1301,20 @@ def search(chk: Check, hints: list, budget_s: float) -> None:
 
 
 def run(chk: Check) -> None:
-    chk.trusted.append("C04: hand-written model Model/Str.lean of TokenizerCore._extract_string (fast path + slow loop, one-character "
-                       "delimiter, non-raw), Generator.escape_str / identifier_sql / sanitize_comment and the block-comment loop of "
-                       "_scan_comment; the theorems stop at what _extract_string/_scan_comment return and leave unread — the "
-                       "_scan/_scan_keywords dispatch that gets there is exercised by the search oracle only")
+    chk.trusted.append("C04: hand-written models Model/Str.lean (TokenizerCore._extract_string fast path + slow loop incl. the alnum "
+                       "bulk skip, Generator.escape_str / identifier_sql / rawstring_sql / bytestring escape / sanitize_comment / "
+                       "maybe_comment plain form, the block-comment loop of _scan_comment) and Model/StrLex.lean (the _scan loop: blank "
+                       "skipping, digit / identifier / keyword-trie dispatch to _scan_string, _scan_identifier, _scan_comment, "
+                       "multi-character delimiters and raw strings in _extract_string); the rest of the scanner (_scan_number, "
+                       "keywords, single tokens, _scan_var, COMMAND re-scan) is a parameter of the token-level theorems and a small "
+                       "concrete fragment in the correspondence")
     chk.assumptions += [
         "pretty=False in the model (the __SQLGLOT__LB__ sentinel step of _replace_line_breaks is the identity then; pretty=True is covered by the search, text containing the sentinel excluded: C07)",
         "no escape, delimiter or comment character is alphanumeric for str.isalnum (hypothesis of alnum_skip_sound, which proves the _advance(alnum=True) bulk skip of the string loop a pure optimisation; checked against CPython for every extracted table each run; for the comment loop the same argument is not mechanised)",
         "str.strip() treats neither '/' nor '*' as blank (checked each run)",
         "what follows a literal does not start with its closing delimiter (premise rest.head? != q of the round-trip theorems)",
-        "byte / raw / national / heredoc literals and multi-character delimiters are not modelled (search oracle only)",
+        "hex / bit / heredoc strings, unicode literals, `{# #}` and hint comments, comment attachment to tokens are not modelled (search oracle only); inputs outside the model's fragment are reported by the model as unsupported and skipped in the token-level correspondence (counted in the evidence)",
+        "str.isspace agrees with `strip()` emptiness; no blank character upper-cases to the third character of a trie key extending `/*`; no generator start delimiter is blank (checked against CPython / the extracted tables each run)",
     ]
     chk._c04_table = {}
     chk.write_generated(translate(chk))
